@@ -108,7 +108,37 @@ Definition model_client (kind : Z) (chmap : Z -> Z) (out : list pkt) : option (l
 Definition tag := (Z * Z * bytes)%type.
 Definition tag_eqb (a b : tag) : bool :=
   (fst (fst a) =? fst (fst b)) && (snd (fst a) =? snd (fst b)) && bytes_eqb (snd a) (snd b).
-Definition ok_flv (reference observed : list tag) : bool := list_eqb tag_eqb reference observed.
+(* flv.Writer.WriteFlvTag puts every tag on the client's own time line (C08's business, mirrored
+   here only as far as the timestamps go): the first media tag is the origin, later media tags advance
+   it by their distance to the previous media tag, a tag older than the origin shows 0; metadata
+   and sequence-header tags are stamped with the current position *)
+Definition tag_ts (t : tag) : Z := snd (fst t).
+Definition tag_type (t : tag) : Z := fst (fst t).
+Definition is_media_tag (t : tag) : bool :=
+  match snd t with
+  | b0 :: b1 :: _ =>
+      negb ((tag_type t =? 18)
+            || ((tag_type t =? 9) && ((b0 mod 16 =? 7) || (b0 mod 16 =? 12)) && (b0 / 16 =? 1) && (b1 =? 0))
+            || ((tag_type t =? 8) && (b0 / 16 =? 10) && (b1 =? 0)))
+  | _ => negb (tag_type t =? 18)
+  end.
+Fixpoint flv_times (started : bool) (last elapsed : Z) (reference : list tag) : list Z :=
+  match reference with
+  | [] => []
+  | t :: r =>
+      let m := is_media_tag t in
+      let elapsed' := if m then (if started then elapsed + (tag_ts t - last) else elapsed) else elapsed in
+      let last' := if m then tag_ts t else last in
+      Z.max 0 elapsed' :: flv_times (started || m) last' elapsed' r
+  end.
+Fixpoint retime (ts : list Z) (l : list tag) : list tag :=
+  match ts, l with
+  | z :: ts', t :: l' => (tag_type t, z, snd t) :: retime ts' l'
+  | _, _ => []
+  end.
+(* what a client of an FLV transport receives when the in-process consumer received [reference] *)
+Definition flv_client (reference : list tag) : list tag := retime (flv_times false 0 0 reference) reference.
+Definition ok_flv (reference observed : list tag) : bool := list_eqb tag_eqb (flv_client reference) observed.
 
 (* ---------------------------------------------------------------- C03: release, as observed from outside
    a snapshot: consumers on the stream, active rtsp / flv / wsp connections (relative to the values
